@@ -264,19 +264,33 @@ func driveCR(p *Plan, shard int, w *Writer, t *codec.Table) {
 			return drive.Res{St: "ok"}
 		})
 	}
+	// YAML that is not JSON: non-finite numbers, anchors and aliases (also recursive), tags, keys that are not strings,
+	// timestamps, merge keys, documents and directives
+	for _, y := range yamlSpecials {
+		seeds = append(seeds, struct{ kind, text string }{"yaml", y})
+	}
 	alphabet := []byte("{}[]\",:-+@^ \n0123456789.eE\\/~ntu\x00\xff")
 	nmut := scale(400)
 	if !quick {
 		nmut = 6000
 	}
-	for c := 0; c < nmut; c++ {
-		if chunkN > 1 && c%chunkN != chunkI {
+	for c := -len(yamlSpecials); c < nmut; c++ {
+		if c >= 0 && chunkN > 1 && c%chunkN != chunkI {
 			rng.Intn(len(seeds)) // keep the generator in step
 			continue
 		}
-		sd := seeds[rng.Intn(len(seeds))]
+		var sd struct{ kind, text string }
+		if c < 0 {
+			// every special document once as it is (by one shard and in the first chunk only)
+			if shard != (-c)%p.Shards || chunkI != 0 {
+				continue
+			}
+			sd = struct{ kind, text string }{"yaml", yamlSpecials[-c-1]}
+		} else {
+			sd = seeds[rng.Intn(len(seeds))]
+		}
 		b := []byte(sd.text)
-		for k := 0; k < 1+rng.Intn(3) && len(b) > 0; k++ {
+		for k := 0; c >= 0 && k < 1+rng.Intn(3) && len(b) > 0; k++ {
 			pos := rng.Intn(len(b))
 			switch rng.Intn(5) {
 			case 0:
@@ -296,13 +310,14 @@ func driveCR(p *Plan, shard int, w *Writer, t *codec.Table) {
 		sess := id*p.Shards + shard + 50000000
 		w.Sess[shard]++
 		var d jd.Diff
+		var doc jd.JsonNode
 		r := drive.Guard(func() drive.Res {
 			var err error
 			switch sd.kind {
 			case "json":
-				_, err = jd.ReadJsonString(text)
+				doc, err = jd.ReadJsonString(text)
 			case "yaml":
-				_, err = jd.ReadYamlString(text)
+				doc, err = jd.ReadYamlString(text)
 			case "diff":
 				d, err = jd.ReadDiffString(text)
 			case "patch":
@@ -316,6 +331,25 @@ func driveCR(p *Plan, shard int, w *Writer, t *codec.Table) {
 			return drive.Res{St: "ok"}
 		})
 		w.Emit(shard, Rec{"sess": sess, "op": "Mut", "kind": sd.kind, "raw": text, "st": r.St})
+		if r.St == "ok" && doc != nil {
+			// a document that was read is a document: rendering it, comparing it, diffing it against another
+			// document and patching it must end in a result or an error
+			other := v.MustInject(targets[c2idx(c, len(targets))])
+			use := func(name string, f func()) {
+				ru := drive.Guard(func() drive.Res { f(); return drive.Res{St: "ok"} })
+				w.Emit(shard, Rec{"sess": sess, "op": "Use", "kind": sd.kind, "what": name, "st": ru.St, "msg": ru.Msg})
+			}
+			use("json", func() { _ = doc.Json() })
+			use("yaml", func() { _ = doc.Yaml() })
+			use("equals", func() { _ = doc.Equals(doc); _ = doc.Equals(other); _ = other.Equals(doc, jd.SET) })
+			use("diff-render", func() {
+				_ = doc.Diff(other).Render()
+				_ = other.Diff(doc).Render(jd.COLOR)
+				_ = doc.Diff(doc, jd.SET).Render()
+			})
+			use("diff-translate", func() { dd := other.Diff(doc); _, _ = dd.RenderPatch(); _, _ = other.Diff(doc, jd.MERGE).RenderMerge() })
+			use("patch", func() { _, _ = other.Patch(other.Diff(doc)); _, _ = doc.Patch(other.Diff(doc)) })
+		}
 		if r.St == "ok" && len(d) > 0 {
 			for k := 0; k < 3; k++ {
 				var x jd.Diff
@@ -338,4 +372,22 @@ func driveCR(p *Plan, shard int, w *Writer, t *codec.Table) {
 		}
 		w.Emit(shard, Rec{"sess": sess, "op": "End"})
 	}
+}
+
+func c2idx(c, n int) int {
+	if c < 0 {
+		c = -c
+	}
+	return c % n
+}
+
+var yamlSpecials = []string{
+	".nan", ".inf", "-.inf", "a: .nan\n", "- .inf\n- 1\n", "a: [.NaN, -.INF]\n",
+	"&a [*a]", "a: &x\n  b: *x\n", "a: &x [1, 2]\nb: *x\nc: *x\n", "*undefined", "a: &a [&b [&c [*a, *b, *c]]]\n",
+	"!!binary aGVsbG8=", "!!set {a, b}", "!!omap [a: 1]", "!!float 1", "!!str 1", "!unknown x", "!!int abc", "!!python/object:os.system x",
+	"? [1, 2]\n: 3\n", "1: 2\n", "1.5: x\n", "true: 1\n", "~: 1\n", "null: 1\n", "{[a]: b}", "{? {a: 1} : 2}",
+	"2001-01-01", "a: 2001-12-14t21:59:43.10-05:00\n", "<<: {a: 1}\nb: 2\n", "a: {<<: [{b: 1}, {c: 2}]}\n", "<<: 1\n",
+	"--- 1\n--- 2\n", "%YAML 1.1\n--- a\n", "--- \n...\n", "a: |\n  x\n   y\n", "a: >-\n\n  x\n", "\ufeffa: 1\n", "a: 1\r\nb: 2\r\n", "\ta: 1",
+	"0x1F", "0o17", "017", "1_000", "190:20:30", "0b101", "+.inf", "1e400", "-1e400", "1e-400", "9223372036854775808", "-9223372036854775809", "18446744073709551616",
+	"a: 1\na: 2\n", "{a: 1, a: 2}", "[", "{", "a: [", "- - - - - - - - - - - - - - - - - - - - x", "a: b: c", "@x", "`x", "key: \"\\x41\\u263A\\U0001F600\"",
 }
